@@ -162,4 +162,20 @@ theorem envVar_bad (valid : Bytes → Bool) (x : VarVal) (h : varOk valid x = fa
   | unset => rfl
   | val b => simp [varOk] at h; simp [envVar, h]
 
+/-! documents as raw file-system state -/
+
+theorem readError_none (valid : Bytes → Bool) (d : Doc) (h : d.readError valid = none) : d = .asGiven := by
+  cases d with
+  | asGiven => rfl
+  | missing => simp [Doc.readError] at h
+  | unreadable => simp [Doc.readError] at h
+  | undecodable b => simp only [Doc.readError] at h; cases hv : valid b <;> simp [hv] at h
+
+theorem readError_notFound (valid : Bytes → Bool) (d : Doc) (h : d.readError valid = some .ioNotFound) : d = .missing := by
+  cases d with
+  | asGiven => simp [Doc.readError] at h
+  | missing => rfl
+  | unreadable => simp [Doc.readError] at h
+  | undecodable b => simp only [Doc.readError] at h; cases hv : valid b <;> simp [hv] at h
+
 end CnbVerif.Platform
